@@ -6,6 +6,7 @@ import (
 	"fmt"
 	"github.com/go-faster/jx"
 	custom_errors "github.com/metrico/qryn/writer/utils/errors"
+	"io"
 	"math"
 
 	"strconv"
@@ -136,6 +137,11 @@ func (z *zipkinDecoderV2) decodeSpan(rawSpan jx.Raw) error {
 	})
 	if err != nil {
 		return custom_errors.NewUnmarshalError(err)
+	}
+	// rawSpan is stored as the span's payload: nothing but white space may follow the object (a line of
+	// the newline-delimited framing is not checked by anyone else), or the trace reader cannot parse it
+	if err := dec.Skip(); err != io.EOF {
+		return custom_errors.New400Error("unexpected data after the span object")
 	}
 	// the span belongs to the local endpoint's service; the remote endpoint (the peer) names it
 	// only when there is no local name, whatever the order of the two fields in the document
